@@ -201,6 +201,9 @@ Print Assumptions C19_prediction_error_linear_grid.
 Theorem C19_uniform_quadratic_lebesgue a s tau : (0 < s)%R -> (0 <= tau <= 2)%R -> (lebesgue [a; a + s; a + 2 * s]%R (a + s * tau)%R <= 5 / 4)%R.
 Proof. exact (uniform_quadratic_lebesgue a s tau). Qed.
 Print Assumptions C19_uniform_quadratic_lebesgue.
+Theorem C19_uniform_quadratic_lebesgue1 a s tau : (0 < s)%R -> (0 <= tau <= 2)%R -> (lebesgue1 [a; a + s; a + 2 * s]%R (a + s * tau)%R <= 5 / s)%R.
+Proof. exact (uniform_quadratic_lebesgue1 a s tau). Qed.
+Print Assumptions C19_uniform_quadratic_lebesgue1.
 Example C19_linear_grid_example t : (1 / 4 <= t <= 1)%R -> (Rabs (Iglobal gex 1 exp t - exp t) <= 3 * (1 / 2) ^ 2)%R.
 Proof. exact (linear_grid_example t). Qed.
 
